@@ -726,9 +726,21 @@ func got0(res *node.QueryResult) bool {
 //     leaf's data): confirmed when the result equals the model evaluated without the data of those leaves;
 //   - select *: the leaves plan different field lists and the root builds its aggregator from the first response.
 func (r *runner) classifyIsolated(l layoutSpec, q *query, o *outcome, holdings []string, res *node.QueryResult, specs map[string][]string) {
-	if !l.Isolated || o.Class == "" || strings.HasPrefix(o.Class, "C12/never-answers") || strings.HasPrefix(o.Class, "C12/error-lost") ||
-		strings.HasPrefix(o.Class, "C12/order-by-limit/groups-without-data") {
+	if !l.Isolated || o.Class == "" || strings.HasPrefix(o.Class, "C12/never-answers") || strings.HasPrefix(o.Class, "C12/error-lost") {
 		return
+	}
+	if strings.HasPrefix(o.Class, "C12/order-by-limit/groups-without-data") {
+		// only a leaf WITH matching data that answered not-found can be the real cause; otherwise keep the label
+		hit := false
+		for _, le := range o.LeafErrs {
+			var li int
+			if _, err := fmt.Sscanf(le, "leaf %d", &li); err == nil && li < len(holdings) && holdings[li] == "matching-data" {
+				hit = true
+			}
+		}
+		if !hit {
+			return
+		}
 	}
 	distinct := map[string]bool{}
 	for _, fs := range specs {
@@ -774,10 +786,6 @@ func (r *runner) classifyIsolated(l layoutSpec, q *query, o *outcome, holdings [
 		}
 		return
 	}
-	if q.Limited {
-		o.Class = class + "/limited-statement-not-checked-further"
-		return
-	}
 	// the model without the shards of the leaves that answered with an error
 	keep := map[int]bool{}
 	for li, shards := range l.Leaves {
@@ -802,6 +810,78 @@ func (r *runner) classifyIsolated(l layoutSpec, q *query, o *outcome, holdings [
 			}
 		}
 		m2.Add(part)
+	}
+	if q.Limited {
+		// the kept groups must be an admissible answer over the data of the leaves that did answer, with exactly their values
+		exp := m2.Eval(q.full)
+		full2 := resultMap{}
+		lenientGroups := 0
+		for g, es := range exp.Series {
+			if lenientOnly(es) {
+				lenientGroups++
+				continue
+			}
+			for item, pts := range es.Items {
+				for ts, v := range pts {
+					if v.Lenient || v.Unknown || len(v.Possible) == 0 {
+						continue
+					}
+					if full2[g] == nil {
+						full2[g] = map[string]map[int64]float64{}
+					}
+					if full2[g][item] == nil {
+						full2[g][item] = map[int64]float64{}
+					}
+					full2[g][item][ts] = v.Possible[0]
+				}
+			}
+		}
+		got, _ := toMap(res.ResultSet, q.Q.GroupBy)
+		var kept []string
+		sub := &node.Expected{Plan: exp.Plan, Series: map[string]*node.ExpSeries{}, ZeroFill: exp.ZeroFill}
+		for g := range got {
+			if _, ok := full2[g]; ok || exp.Series[g] == nil {
+				kept = append(kept, g)
+			}
+			if es := exp.Series[g]; es != nil {
+				sub.Series[g] = es
+			}
+		}
+		sort.Strings(kept)
+		empties := 0
+		seen := map[string]bool{}
+		for _, si := range r.place {
+			if !keep[si.Shard] || si.Metric != q.Q.Metric || (q.Q.Cond != nil && !q.Q.Cond.Match(si.Tags)) {
+				continue
+			}
+			ok := true
+			for _, k := range q.Q.GroupBy {
+				if _, has := si.Tags[k]; !has {
+					ok = false
+				}
+			}
+			g := node.GroupKeyOf(q.Q.GroupBy, si.Tags)
+			if _, has := full2[g]; ok && !has && !seen[g] {
+				seen[g] = true
+				empties++
+			}
+		}
+		problem, _, viaEmpty := checkKept(q, kept, full2, empties+lenientGroups)
+		ds := node.Compare(sub, res.ResultSet, q.Q.GroupBy, node.CompareOptions{})
+		switch {
+		case problem == "" && len(ds) == 0 && !viaEmpty:
+			o.Class = class + "/limited-result-is-the-answer-without-that-leaf"
+		case problem == "" && len(ds) == 0:
+			// over the answering leaves' data the kept set still needs groups without data in result slots
+			o.Class = "C12/order-by-limit/groups-without-data-hold-result-slots"
+		default:
+			o.Class = "C12/isolated-metadata/unexplained/a-leaf-answered-" + kind + "-but-dropping-it-does-not-explain-the-limited-result"
+			if problem == "" {
+				problem = ds[0].String()
+			}
+			o.Problem += "; over the data of the answering leaves: " + problem
+		}
+		return
 	}
 	exp := m2.Eval(q.full)
 	ds := node.Compare(exp, res.ResultSet, q.Q.GroupBy, node.CompareOptions{})
